@@ -1207,9 +1207,15 @@ rrul_fill_mly(echs_instant_t *restrict tgt, size_t nti, rrulsp_t rr)
 	if (UNLIKELY(bui31_has_bits_p(rr->mon))) {
 		bitint_iter_t bm = 0UL;
 
-		/* check that some of the months are congruent m modulo inter */
-		while (bui31_next(&bm, rr->mon) &&
-		       ((m + 12U) - (bm - 1U)) % rr->inter);
+		unsigned int g = 12U;
+		unsigned int mo;
+
+		/* months reachable from m in steps of inter are those
+		 * congruent m modulo gcd(inter, 12) */
+		for (unsigned int a = rr->inter % 12U, t; a; t = g % a, g = a, a = t);
+		/* check that some of the months are reachable at all */
+		while ((mo = bui31_next(&bm, rr->mon), bm) &&
+		       ((mo + 12U) - (unsigned int)m) % g);
 		if (UNLIKELY(!bm)) {
 			goto fin;
 		}
